@@ -672,8 +672,8 @@ example : Dispatch.simConsistent ⟨"X", 16, "explUp", "-", "-", "true", "given"
   modelled by recursion (`InclDown.expandN`); the address-keyed caches and hash-container iteration orders are replaced by
   value comparison and list order.  `C01_downward_verdict_certified` is stated for `inclDownRec`; the analogous shape
   statement for the other three verdict functions follows from the same `finish` but is not spelled out.
-* No totality theorem for the reference deciders `inclM`/`inclRef` (they return `none` on too little fuel; every
-  `some` is exact).  The fuel bounds of the models (`fuelBound`, `fuelBoundD`) are exponential worst-case bounds, not
-  tight.
+* The reference deciders `inclM`/`inclRef` are total above the explicit bound `fuelBoundM [A, B]`
+  (`C01_reference_total` in `Vata/Properties/RefTotal.lean`); no lower bound on the fuel they need is proved.  The fuel
+  bounds of the models (`fuelBound`, `fuelBoundD`) and of the references are exponential worst-case bounds, not tight.
 -/
 end Vata.Props
